@@ -41,7 +41,7 @@ Abstract(s, rs, bs, maxBody, cut) ==
                           end |-> IF cut > 0 /\ cut < o[i].end THEN cut ELSE o[i].end,
                           bodyLen |-> s[i].bodyLen, expect100 |-> s[i].expect100 /\ s[i].raw = "",
                           close |-> AsksClose(s[i]) /\ s[i].raw = "", hclose |-> HClose(rs, bs, i), bad |-> s[i].raw # "",
-                          big |-> (maxBody > 0 /\ s[i].bodyLen > maxBody), ambig |-> Ambiguous(s[i]),
+                          big |-> (maxBody > 0 /\ s[i].bodyLen > maxBody), ambig |-> Ambiguous(s[i]), pre |-> PreParsed(s[i]),
                           partial |-> (cut > 0 /\ o[i].start < cut /\ cut < o[i].end)]]
 
 NoCfg == [streaming |-> FALSE, idle |-> "inloop", trace |-> FALSE, wfail |-> 0, deny |-> FALSE, nokeep |-> FALSE]
@@ -85,7 +85,7 @@ TraceInterim == /\ active /\ HasLine /\ Line.ev = "Response" /\ Line.kind = "int
 \* the handler is entered: what it sees is what framing assigns to request cur
 TraceHandle ==
     /\ active /\ HasLine /\ Line.ev = "Handle"
-    /\ Handle(IF Line.rd = -1 THEN (IF cfg.streaming \/ Denied(cur) THEN reqs[cur].headEnd ELSE reqs[cur].end) ELSE Line.rd)   \* -1: real sockets, position unknown
+    /\ Handle(IF Line.rd = -1 THEN (IF (cfg.streaming /\ ~reqs[cur].pre) \/ Denied(cur) THEN reqs[cur].headEnd ELSE reqs[cur].end) ELSE Line.rd)   \* -1: real sockets, position unknown
     /\ Line.seq = cur
     /\ LET e == Expected(script[cur], cur) IN
        /\ Line.method = e.method /\ Line.target = e.target /\ Line.ver = e.ver
@@ -104,9 +104,17 @@ TraceReadBuffered ==
     /\ readDone' = TRUE
     /\ Consume /\ UNCHANGED <<vars, script, active, eofSeen, unread, behs, level, resps>>
 
+\* streaming mode, multipart form declared by Content-Length: the form was parsed while the request was read, the
+\* handler gets no stream (what Body() returns is re-created from the form)
+TraceReadPre ==
+    /\ active /\ HasLine /\ Line.ev = "Read" /\ cfg.streaming /\ phase = "handle" /\ reqs[cur].pre /\ ~Denied(cur)
+    /\ Line.k >= 0 /\ Line.err = ""      \* Body() re-creates a body from the parsed form: its bytes are not those on the wire
+    /\ Line.rd = rd \/ Line.rd = -1
+    /\ Consume /\ UNCHANGED <<vars, script, active, readDone, eofSeen, unread, behs, level, resps>>
+
 \* streamed body: a read returns the next k bytes of the body (0 <= k <= p); EOF exactly at the end
 TraceReadStream ==
-    /\ active /\ HasLine /\ Line.ev = "Read" /\ cfg.streaming /\ phase = "handle"
+    /\ active /\ HasLine /\ Line.ev = "Read" /\ cfg.streaming /\ phase = "handle" /\ (~reqs[cur].pre \/ Denied(cur))
     /\ Line.err = "" \/ (reqs[cur].partial /\ ~Line.eof)      \* a body cut short by the peer fails the read
     /\ Line.k >= 0 /\ Line.k <= Line.p
     /\ Line.runs = OneRun(cur, cons, Line.k)
@@ -247,7 +255,7 @@ TraceEnd == /\ active /\ HasLine /\ Line.ev = "End" /\ phase = "closed"
 
 Normal == TraceCase \/ TraceDeliver \/ TraceEof \/ TraceInterim \/ TraceHandle \/ TraceReadBuffered \/ TraceReadStream
           \/ TraceHandleEnd \/ TraceRespond \/ TraceClosed \/ TraceContinue \/ TraceEnd
-          \/ TraceReject \/ TraceWriteFail \/ TraceTStart \/ TraceTFinish \/ TraceWrote
+          \/ TraceReject \/ TraceWriteFail \/ TraceTStart \/ TraceTFinish \/ TraceWrote \/ TraceReadPre
 
 NextCase(k) == IF \E j \in k + 1 .. Len(Trace) : Trace[j].ev = "Case"
                THEN CHOOSE j \in k + 1 .. Len(Trace) : Trace[j].ev = "Case" /\ \A i \in k + 1 .. j - 1 : Trace[i].ev # "Case"
